@@ -314,7 +314,7 @@ func runBytes(c *mon.Ctx, batch, batches int) {
 				visit([]byte("["+prefix+"]"), "senseq", false)
 			}
 		}
-		if n == c.Pick(4, 5) {
+		if n == c.Pick(5, 6) {
 			return
 		}
 		for _, t := range toks {
